@@ -6,6 +6,30 @@ check("C19", "translation_validation",
       "per-rule NFA language equivalence between .g4 rule bodies and the decoded serialized ATN; integer-sequence and table identity across artefacts; go/types method-set comparison",
       "DESIGN.md section 3 (E8), section 4 (C19)")
 
+check("C18", "proof",
+      "Decision procedure over all strings: rule constants and format strings are constant-folded from the type-checked Go source, each validator becomes a boolean formula over anchored patterns, patterns are compiled with regexp/syntax and determinised over code-point classes following MatchString semantics; every clause (unique decomposition, forbidden characters, disjointness/union, exact length limits, compilability) is product-automaton reachability with a shortest witness; rule strings compared byte-for-byte with the TS and Java sources.",
+      "Trusted: regexp/syntax (the parser/compiler the regexp package itself uses), go/types constant folding, the automaton construction (self-tested on every run through fixtures). Whitespace = RE2 \\s, the class the rule strings use.",
+      "automata-theoretic decision procedure (regexp/syntax program -> DFA over code-point classes; product emptiness / inclusion / length spectrum); literal extraction from TS/Java sources",
+      "DESIGN.md section 3 (E7), section 4 (C18)")
+
+check("C12", "other",
+      "Necessary condition decided statically: no loop over a Go map / gonum iterator and no entropy source reachable from TransformModuleFilesToModel (listener callbacks included) can influence the result or the error list - every such loop is classified by the effects of its body into order-insensitive forms or reported; no package-level state is written on that path.",
+      "Sufficient-condition prover for schedule independence; permutation invariance of success (a value argument) is not decided. Trusted: Go slices iterate in index order; enumerated order/entropy sources are complete.",
+      "AST effect classification of every map-range / iterator loop in call-graph-reachable code (go/packages + go/ssa + VTA), comparator totality check, SSA taint from entropy sources, package-state write scan",
+      "DESIGN.md section 3 (E3, E2), section 4 (C12)")
+
+check("C13", "other",
+      "Repository-side necessary conditions decided statically: per public entry point a may-point-to analysis shows no write (store, map update, append, copy, delete, in-place sort, library mutator) to memory reachable from an argument; no reachable function writes package-level state outside initialisers; builders never store into their receiver.",
+      "History independence through ANTLR's shared prediction caches and races inside third-party code are trusted, not analysed. Library read-only/mutator tables are part of the trusted base; unknown library callees receiving argument memory fail the check.",
+      "SSA inclusion-style may-point-to analysis (EXT / HOLDS marks, field-based, per-entry-point context, VTA call graph) + package-level state write scan",
+      "DESIGN.md section 3 (E2), section 4 (C13)")
+
+check("C14", "other",
+      "Necessary conditions decided statically on the DSL printer: output order never comes from a map (collect-then-sort with a comparator total on the names, no later unstable partial re-sort); the include-source-information option only flows into the trailing-comment helper, which returns \"\" when the option is off, whose result starts with ' #' and is the last verb on its output line at every use; no package-level state.",
+      "Byte identity across JSON encodings is delegated to protojson; the exact documented order (module, file, name) is not decided beyond totality/determinism of the comparator.",
+      "AST effect classification of map-range loops + comparator totality; SSA def-use of the option value; CFG evaluation of the helper under option=false; constant-format verb position analysis",
+      "DESIGN.md section 3 (E3, E5), section 4 (C14)")
+
 _PENDING = "static check not built yet in this round; see DESIGN.md section 4 for the planned clauses"
 for _p in ["C01","C02","C03","C05","C06","C07","C08","C09","C10","C11","C12","C13","C14","C15","C16","C17","C18"]:
     if _p not in CHECKS:
